@@ -11,7 +11,7 @@ import (
 
 // The second part of the catalogue: Validate() with POINTER and with VALUE
 // receiver over every underlying kind a named type can have (int, uint, float,
-// string, bool, an int64 derived from time.Duration, slice, map, struct), and
+// string, bool, an int64 derived from time.Duration, slice, array, map, struct), and
 // InitDefaults (pointer receiver; a value receiver cannot change a primitive)
 // on the primitive kinds, valid and invalid defaults alike. A method declared
 // on the pointer receiver is in the method set of *T only, one declared on the
@@ -117,7 +117,29 @@ func (p *c04PM) Validate() error {
 
 type c04PMTwin map[string]int
 
+type c04PA [2]int
+
+func (p *c04PA) Validate() error {
+	if p[0] < 0 || p[1] < 0 {
+		return errors.New("c04PA: elements must not be negative")
+	}
+	return nil
+}
+
+type c04PATwin [2]int
+
 // ---- value-receiver Validate() on the kinds the first part does not cover
+
+type c04VA [2]int
+
+func (v c04VA) Validate() error {
+	if v[0] < 0 || v[1] < 0 {
+		return errors.New("c04VA: elements must not be negative")
+	}
+	return nil
+}
+
+type c04VATwin [2]int
 
 type c04VU uint
 
@@ -352,6 +374,9 @@ func init() {
 	register("c04_pd", c04PD(0), c04PDTwin(0), ptd("int64"), intOK)
 	register("c04_pl", c04PL{}, c04PLTwin{}, intList(), collOK)
 	register("c04_pm", c04PM{}, c04PMTwin{}, intMap(), collOK)
+
+	register("c04_pa", c04PA{}, c04PATwin{}, &gen.TD{Kind: "array", N: 2, Elem: ptd("int")}, collOK)
+	register("c04_va", c04VA{}, c04VATwin{}, &gen.TD{Kind: "array", N: 2, Elem: ptd("int")}, collOK)
 
 	register("c04_vu", c04VU(0), c04VUTwin(0), ptd("uint"), uintOK)
 	register("c04_vf", c04VF(0), c04VFTwin(0), ptd("float64"), floatOK)
